@@ -1,7 +1,7 @@
 #!/bin/bash
 # usage: run_suite.sh <repo_dir> <out_prefix> [jobs]   -- runs the repository's own test suite against <repo_dir>/src
 d=$1; out=$2; j=${3:-8}
-cd "$d" && PYTHONPATH="$d/src" /venv/bin/python -m pytest -q -p no:cacheprovider --timeout=900 -n "$j" \
+cd "$d" && PYTHONPATH="$d/src" /venv/bin/python -m pytest -q -p no:cacheprovider --timeout=900 -p no:warnings -n "$j" \
    --continue-on-collection-errors --junitxml="$out.junit.xml" > "$out.log" 2>&1
 echo "exit=$?" >> "$out.log"
 tail -3 "$out.log"
